@@ -9,6 +9,7 @@ from props import _design
 
 TITLE = "IterateSATGen and RandomGen agree"
 LEVEL = "proof"
+DOMAINS = ['Design']
 
 
 def diff(r):
